@@ -484,6 +484,13 @@ static const seed_t seeds[] = {
     { "npd-probe-0port-zin-fz0", F_NPD, "npd",
 	"#NPD\n#:version 1.0\n#:ports 0\n#:frequencies 1\n"
 	"#:parameters Zinri\n#:z0 PER-FREQUENCY\n1.0e9\n", SF_PROBE },
+    { "npd-probe-0port-z0-twice", F_NPD, "npd",
+	"#NPD\n#:version 1.0\n#:ports 0\n#:frequencies 1\n"
+	"#:parameters Zinri\n#:z0\n#:z0 PER-FREQUENCY\n1.0e9\n", SF_PROBE },
+    { "npd-probe-2port-z0-twice", F_NPD, "npd",
+	"#NPD\n#:version 1.0\n#:ports 2\n#:frequencies 1\n"
+	"#:parameters Sri\n#:z0 50 0 75 0\n#:z0 PER-FREQUENCY\n"
+	"1.0e9 50 0 60 1 1 2 3 4 5 6 7 8\n", SF_PROBE },
     /* dimensions far beyond the data that follow: refused, not crashed */
     { "vnacal-probe-huge-dims", F_VNACAL, "vnacal",
 	"#VNACal 1.0\n%YAML 1.1\n---\nproperties: ~\ncalibrations:\n"
